@@ -92,7 +92,7 @@ func isCtrlConnType(t types.Type) bool {
 	return strings.HasSuffix(pk, "internal/protocol/session/connection") && (n == "ControlConnection" || n == "ControlConnectionInterface")
 }
 
-func runC03(r *Report) {
+func checkIdentityWriters(r *Report, rule string) {
 	// ---- R-C03-1 who may set identity ---------------------------------------
 	type site struct {
 		in   ssa.Instruction
@@ -147,12 +147,12 @@ func runC03(r *Report) {
 		key := []string{fn, s.what}
 		// accessor bodies
 		if top.Signature.Recv() != nil && isCtrlConnType(top.Signature.Recv().Type()) && (top.Name() == "SetClientID" || top.Name() == "SetAuthenticated") {
-			r.Pass("R-C03-1", s.in.Pos(), "accessor body", key...)
+			r.Pass(rule, s.in.Pos(), "accessor body", key...)
 			continue
 		}
 		// proof points
 		if c, pol, ok := CallFact(s.in.Block(), "SecretKeyManager.VerifyResponse"); ok && pol {
-			r.Pass("R-C03-1", s.in.Pos(), "proof point: dominated by VerifyResponse()==true at "+r.P.Pos(c.Pos()), key...)
+			r.Pass(rule, s.in.Pos(), "proof point: dominated by VerifyResponse()==true at "+r.P.Pos(c.Pos()), key...)
 			continue
 		}
 		issued := false
@@ -162,19 +162,23 @@ func runC03(r *Report) {
 			}
 		}
 		if issued {
-			r.Pass("R-C03-1", s.in.Pos(), "proof point: dominated by successful issuance of fresh credentials", key...)
+			r.Pass(rule, s.in.Pos(), "proof point: dominated by successful issuance of fresh credentials", key...)
 			continue
 		}
 		if dead, why := deadByAssert(r.P, s.in); dead {
-			r.Pass("R-C03-1", s.in.Pos(), "dead branch: "+why, key...)
+			r.Pass(rule, s.in.Pos(), "dead branch: "+why, key...)
 			continue
 		}
 		if top.Name() == "UpdateAuth" {
-			r.Pass("R-C03-1", s.in.Pos(), "registry re-assertion under the registry lock (callers checked by R-C03-4)", key...)
+			r.Pass(rule, s.in.Pos(), "registry re-assertion under the registry lock (callers checked by R-C03-4)", key...)
 			continue
 		}
-		r.Fail("R-C03-1", s.in.Pos(), "identity of a control connection is written outside a proof point: not dominated by a successful VerifyResponse nor by issuance of fresh credentials", key...)
+		r.Fail(rule, s.in.Pos(), "identity of a control connection is written outside a proof point: not dominated by a successful VerifyResponse nor by issuance of fresh credentials", key...)
 	}
+}
+
+func runC03(r *Report) {
+	checkIdentityWriters(r, "R-C03-1")
 	r.Floor("R-C03-1", 12, "writers of control-connection identity")
 
 	// ---- R-C03-2 proof details ---------------------------------------------
